@@ -44,9 +44,13 @@ package bgp
 //@ func (*EVPNMulticastEthernetTagRoute).DecodeFromBytes
 //@   claims bounds div0 make post
 //@   ensures result != nil ==> isMsgErr(result)
+// the end-point address of an Encapsulation NLRI is the 4 or 16 octets its length octet announces, not whatever
+// follows in the attribute (C04: several NLRI packed into one MP_REACH parse back)
 //@ func (*EncapNLRI).decodeFromBytes
-//@   claims bounds div0 make post
+//@   tag C05 C04
+//@   claims bounds div0 make post at-call
 //@   ensures result != nil ==> isMsgErr(result)
+//@   at-call netip.AddrFromSlice( requires len(arg0) == int(data[0]) / 8
 //@ func (*FlowSpecComponent).DecodeFromBytes
 //@   claims bounds div0 make post
 //@   ensures result != nil ==> isMsgErr(result)
